@@ -88,6 +88,10 @@ fn pool() -> Vec<Val> {
         Val::Arr(vec![Val::Int(1), Val::Int(23)]),
         Val::Arr(vec![Val::Int(12), Val::Int(3)]),
         Val::Arr(vec![Val::Int(123)]),
+        // strings whose escaped printed forms collide when a code point beyond the BMP is
+        // written with five hex digits: U+1F600 vs U+1F60 followed by "0"
+        Val::Obj(vec![("k".into(), s("\u{1f600}"))]),
+        Val::Obj(vec![("k".into(), s("\u{1f60}0"))]),
         // neighbouring doubles: distinct values that an approximate comparison would merge
         Val::Dec(3, 1),
         Val::Dec(30_000_000_000_000_004, 17),
@@ -131,7 +135,7 @@ impl Property for C10 {
         "exploration"
     }
     fn rule(&self) -> &'static str {
-        "A scenario = a base list of records that are pairwise distinct by construction on the compared part (whole records carrying a unique id, or --select .g [--select .h] with the selected members drawn from a pool of 74 pairwise distinct abstract values (incl. values that differ only in where a bracket sits, and neighbouring doubles) or absent) and an at-least-once transport applied by the harness: every record may be redelivered later any number of times, each time in a fresh spelling that denotes the same value (whitespace, escape spelling, numerically identical number spellings for |n| < 2^53 or non-integral decimals; no -0, member order never permuted), while unselected fields may change; several hasher seeds per scenario through hook H1. Oracle: stdout(--unique, faulted stream) = stdout(no --unique, the sub-stream of first deliveries with the same spellings) (exactly-once); the pairs [x, y] built from two deliveries go through --select (= #0 #1): true exactly for harness-known redeliveries (eq-agrees); identical stdout under every hasher seed (seed-free). evaluations = jawk executions; non-trivial = at least one redelivery was injected; distinct = distinct abstract traces."
+        "A scenario = a base list of records that are pairwise distinct by construction on the compared part (whole records carrying a unique id, or --select .g [--select .h] with the selected members drawn from a pool of 76 pairwise distinct abstract values (incl. values that differ only in where a bracket sits, and neighbouring doubles) or absent) and an at-least-once transport applied by the harness: every record may be redelivered later any number of times, each time in a fresh spelling that denotes the same value (whitespace, escape spelling, numerically identical number spellings for |n| < 2^53 or non-integral decimals; no -0, member order never permuted), while unselected fields may change; several hasher seeds per scenario through hook H1. Oracle: stdout(--unique, faulted stream) = stdout(no --unique, the sub-stream of first deliveries with the same spellings) (exactly-once); the pairs [x, y] built from two deliveries go through --select (= #0 #1): true exactly for harness-known redeliveries (eq-agrees); identical stdout under every hasher seed (seed-free). evaluations = jawk executions; non-trivial = at least one redelivery was injected; distinct = distinct abstract traces."
     }
     fn assumptions(&self) -> Vec<String> {
         vec![
@@ -242,6 +246,10 @@ impl Property for C10 {
         }
         if rng.chance(1, 5) {
             case.opts.push(vec![format!("--take={}", rng.range(1, 6))]);
+        }
+        if rng.chance(1, 6) {
+            // a sorter downstream, on a key that is coarser than the row
+            case.opts.push(vec![format!("--sort-by={}", rng.pick(&[".h", ".g", ".keep", ".id", "(size .)", "\"k\""]))]);
         }
         // the upstream redelivers a whole file: the stream arrives as a file argument that
         // is named 2..3 times on the command line (hook H2)
@@ -396,7 +404,7 @@ impl Property for C10 {
             for _ in 0..3 {
                 synth.push((rng.below(pl.len()), rng.below(pl.len())));
             }
-            for w in pl.len() - 17..pl.len() - 1 {
+            for w in pl.len() - 19..pl.len() - 1 {
                 if rng.chance(1, 3) {
                     synth.push((w, w + 1));
                 }
